@@ -968,6 +968,7 @@ def disable_eom_ensures(c):
         ("not-in-eom-afterwards", z3.Not(in_eom(c.new, cs))),
         ("last-slot-keeps-the-targets", s_targets(last1) == s_targets(last0)),
         ("no-buffer-when-skipped", z3.Implies(T(c._skip_buffer), n1 == n0)),
+        ("appended-slots-are-no-real-pulses", Q([I], lambda k: (z3.And(n0 <= k, k < n1), z3.Not(lps_match(cs_arr(c.new, cs), k, z3.BoolVal(True)))), pats=lambda k: [cs_at(c.new, cs, k)])),
         ("custom-buffer", z3.Implies(z3.And(z3.Not(T(c._skip_buffer)), custom), z3.And(
             n1 == n0 + 1, s_kind(last1) == DELAY, buf >= EOMBUF(ch), buf >= min_dur(ch), buf < z3.If(EOMBUF(ch) >= min_dur(ch), EOMBUF(ch), min_dur(ch)) + clock(ch)))),
         ("default-waits-for-fall", z3.Implies(z3.And(z3.Not(T(c._skip_buffer)), z3.Not(custom), z3.Not(lps_none(arr0, n0, z3.BoolVal(False)))),
